@@ -1535,6 +1535,12 @@ func (c *Ctx) plainSendsAreTabled() {
 					if allowedElem(t.Chan.Type()) {
 						continue
 					}
+					// a channel made in this function with a constant capacity >= 1 (result slots): a send cannot block for ever
+					if mc, ok := t.Chan.(*ssa.MakeChan); ok {
+						if k, ok := mc.Size.(*ssa.Const); ok && k.Value != nil && k.Int64() >= 1 {
+							continue
+						}
+					}
 					R.Check(false, "R19.11", c.name(c.ownerFn(f))+"|plain send of "+types.TypeString(t.Chan.Type().Underlying().(*types.Chan).Elem(), func(p *types.Package) string { return p.Name() }), P.Pos(t.Pos()), "", "a blocking send outside a select: nothing can interrupt it when the receiver is gone (session ended, server closing); the goroutine leaks")
 				case *ssa.Select:
 					// a blocking select that sends on a non-tabled channel needs a receive case (shutdown signal)
